@@ -10,6 +10,11 @@ GEN_DEPENDS = ["UltraPrec", "C17Kernels"]
 RULE = ("dyadic trees (1-14 leaves quick, up to 40 thorough; polytomies, unary nodes, None lengths, zero lengths, fixed families): "
         "exactly ultrametric, randomly non-ultrametric, ultrametric with ONE tip moved by eps*(1 +- 2^-k) (k<=20; eps in "
         "{default 1e-5, 0.01, 2^-10, 2^-3, 1, 0}; also exactly eps), every tip moved by a multiple of eps/4, and child-shuffled copies; "
+        "TIME SCALE x PRECISION sweep: exactly ultrametric dyadic trees of height 2^-20..2^30 (1e-6..1e9), precision 2^-50..2^10 "
+        "(1e-15..1e3) / the default / 0 / disabled, ONE edge (tip or internal, below a first or non-first child, any depth) off by "
+        "f x precision, f in {1/4,1/2,1-2^-k,1,1+2^-k,2,8}, bit span kept below 52 so binary64 is exact; judged for calc_node_ages, "
+        "node_ages, internal_node_ages and pybus_harvey_gamma(prec=): rejected iff some node's other child deviates from its first "
+        "child by more than the precision; "
         "x operation (calc_node_ages x precision x forcing x wrapper, resolve_node_depths/ages, calc_node_root_distances, "
         "set_edge_lengths_from_node_ages x min length x error flag, num_lineages_at x distance, length, min/max leaf distance, "
         "N_bar, sackin x 4 normalisations, colless x 4, B1, treeness, gamma; list forms: the list calc_node_ages returns IN ORDER, "
@@ -829,6 +834,9 @@ def op_stats(ctx, D, case):
             num = F(dbl, n - 2) - Tt / 2
             gw = float(num) / (float(Tt) * math.sqrt(1.0 / (12 * (n - 2))))
     specs.append(("gamma", lambda t: tm.pybus_harvey_gamma(t, **gkw), "stat gamma %s %s" % (ptok, T), gw, "signsqrt"))
+    # the precision of pybus_harvey_gamma(prec=...) is the precision of calc_node_ages: same acceptance / rejection duty
+    gslack = F(0) if case.get("exact", True) else EPS_ABS + REL * 100
+    gamma_prec = p if (info.binary and n >= 3 and not info.nonroot_none and p is not None) else None
 
     for name, fn, line, want, tr in specs:
         if only is not None and name != only:
@@ -846,6 +854,13 @@ def op_stats(ctx, D, case):
                 ctx.fail("stat_error", "%s raised %s; its definition gives %s" % (name, st, float(want)), sub)
             elif not close(F(v), F(want)):
                 ctx.fail("stat_value", "%s = %r; its definition gives %r" % (name, v, float(want)), sub)
+        if name == "gamma" and gamma_prec is not None:
+            if st == "UltrametricityError" and info.spread(info.root) + gslack <= gamma_prec:
+                ctx.fail("gamma_reject_within", "pybus_harvey_gamma(prec=%s): root-to-tip paths agree within the precision (spread %s) "
+                         "but the tree was rejected" % (gamma_prec, info.spread(info.root)), sub)
+            if st == "ok" and not info.local_ok(gamma_prec + gslack):
+                ctx.fail("gamma_accept_beyond_local", "pybus_harvey_gamma(prec=%s) returned %s although some node's other child deviates "
+                         "from its first child by more than the precision (paths differ by %s)" % (gamma_prec, v, info.spread(info.root)), sub)
         # child order independence
         if (name, "tree2") in results and (name != "gamma" or info.exact_ultra):
             st2, v2 = results[(name, "tree2")]
@@ -1110,6 +1125,128 @@ def age_case(rng, toks, prec, exact=True, fmax=False, fmin=False):
             "via": rng.choice(["calc", "calc", "node_ages", "internal_node_ages"]), "io": rng.random() < 0.3, "exact": exact}
 
 
+# ------------------------------------------------------------------ time scale x precision
+def scale_tokens(toks, factor):
+    n = int(toks[0])
+    out = list(toks)
+    for i in range(n):
+        v = out[1 + 2 * n + i]
+        if v != "N":
+            out[1 + 2 * n + i] = tu.frac(F(v) * factor)
+    return out
+
+
+def node_classes(toks):
+    """non-root nodes by (first child?, leaf?) with their depth"""
+    n = int(toks[0])
+    par = [int(x) for x in toks[1:1 + n]]
+    kids = [[] for _ in range(n)]
+    for i, q in enumerate(par):
+        if q >= 0:
+            kids[q].append(i)
+    depth = [0] * n
+    for i in range(n):          # parents precede children in the protocol's pre-order
+        if par[i] >= 0:
+            depth[i] = depth[par[i]] + 1
+    cls = {}
+    for i in range(n):
+        if par[i] >= 0:
+            cls.setdefault((kids[par[i]][0] == i, not kids[i]), []).append(i)
+    return cls, depth
+
+
+def scale_sweep_tree(ctx, D, rng, pending, mode=None, s=None, ratio=None, fixed=None):
+    """one exactly ultrametric dyadic tree of height ~2^s (s in -20..30, i.e. 1e-6..1e9), one precision, ONE edge (a tip or an
+    internal edge; below a first or a non-first child; any depth) lengthened / shortened by f x precision, f in
+    {1/4, 1/2, 1-2^-k, 1, 1+2^-k, 2, 8}; every arithmetic step of the code stays exact in binary64 (bit span checked), so that
+    acceptance / rejection is decided exactly: rejected iff some node's other child deviates from its first child by more than
+    the precision.  mode: 'dyadic' precision 2^e (e in -50..10), 'D' the library default (margins keep float and exact verdicts
+    equal), 'zero' precision 0 with a deviation down to 2^-40 of the height, 'off' check disabled (negative / None / False)."""
+    mode = mode or rng.choice(["dyadic", "dyadic", "dyadic", "D", "D", "zero", "off"])
+    nl = rng.randint(2, 9)
+    if rng.random() < 0.6:
+        shape = tu.rand_shape(rng, nl, p_poly=0.0, p_unary=0.0)
+    else:
+        shape = tu.rand_shape(rng, nl, p_poly=rng.choice([0.2, 0.5]), p_unary=rng.choice([0.0, 0.2]))
+    if s is None:
+        s = rng.randint(-20, 26 if mode == "D" else 30)
+    base = scale_tokens(tokens_from(shape, preorder_lens_ultra(rng, shape, None)), F(2) ** s)
+    exact = True
+    if mode == "dyadic":
+        for _ in range(50):
+            d = ratio if ratio is not None else rng.randint(-12, 38)     # log2(height / precision)
+            e = s - d
+            if -50 <= e <= 10 or ratio is not None:
+                break
+        pv = F(2) ** e
+        ptok = tu.frac(pv)
+        kmax = min(12, 40 - d)
+        fs = [F(1, 4), F(1, 2), F(1), F(2), F(8)]
+        if kmax >= 1:
+            k = rng.randint(1, kmax)
+            fs += [1 - F(1, 2 ** k), 1 + F(1, 2 ** k)]
+        deltas = [pv * f for f in fs]
+        bucket = "r<0" if d < 0 else "r0-19" if d < 20 else "r20-29" if d < 30 else "r30+"
+    elif mode == "D":
+        ptok, exact = "D", False
+        pv = F(eps_float(D, "D"))
+        k = rng.randint(1, 4)
+        deltas = [pv * f for f in (F(1, 4), F(1, 2), 1 - F(1, 2 ** k), 1 + F(1, 2 ** k), F(2), F(8))]
+        bucket = "D-s<0" if s < 0 else "D-s0-13" if s < 14 else "D-s14+"
+    elif mode == "zero":
+        ptok = "0"
+        deltas = [F(2) ** (s - j) for j in rng.sample(range(2, 41), 4)] + [F(0)]
+        bucket = "zero"
+    else:
+        ptok = rng.choice(["neg", "N", "F"])
+        deltas = [F(2) ** (s - j) for j in rng.sample(range(0, 30), 3)]
+        bucket = "off"
+    cls, depth = node_classes(base)
+    if fixed is not None:
+        key = fixed
+    else:
+        key = rng.choice(sorted(cls))
+    if key not in cls:
+        key = sorted(cls)[0]
+    target = rng.choice(cls[key])
+    binary = all(base[1:1 + int(base[0])].count(str(i)) in (0, 2) for i in range(int(base[0])))
+    for delta in deltas:
+        old = get_len(base, target)
+        sign = -1 if (rng.random() < 0.3 and old - delta >= 0) else 1
+        new = old + sign * delta
+        if exact:
+            if F(float(new)) != new:
+                continue            # not representable: outside the exact regime
+        else:
+            new = F(float(old) + sign * float(delta))
+        t2 = set_len(base, target, new)
+        case = age_case(rng, t2, ptok, exact=exact)
+        case["scale"] = [s, bucket, list(key), depth[target]]
+        ctx.case(["scale", t2, ptok, case["via"], case["io"]], True, sample=case, kind="scale-ages-" + bucket)
+        do_case(ctx, D, case, pending)
+        if binary and nl >= 3 and ptok not in ("F",):
+            case = {"op": "stats", "tree": t2, "gprec": ptok, "only": "gamma", "exact": exact, "scale": [s, bucket, list(key), depth[target]]}
+            ctx.case(["scale-gamma", t2, ptok], True, sample=case, kind="scale-gamma-" + bucket)
+            do_case(ctx, D, case, pending)
+
+
+def scale_sweep(ctx, D, rng, pending, count, seconds=None):
+    import time
+    t0 = time.time()
+    # the two landmark regimes first: a tree dated in years under the default precision, a shallow tree under a tiny precision
+    for key in ((False, True), (True, True), (False, False), (True, False)):
+        scale_sweep_tree(ctx, D, rng, pending, mode="D", s=rng.randint(18, 26), fixed=key)
+        scale_sweep_tree(ctx, D, rng, pending, mode="dyadic", s=rng.randint(0, 6), ratio=rng.randint(31, 38), fixed=key)
+        scale_sweep_tree(ctx, D, rng, pending, mode="dyadic", s=rng.randint(20, 30), ratio=rng.randint(31, 38), fixed=key)
+    for i in range(count):
+        if seconds is not None and time.time() - t0 > seconds:
+            break
+        scale_sweep_tree(ctx, D, rng, pending)
+        if len(pending) >= 3000:
+            flush(ctx, pending)
+
+
+
 def run_perturbation(ctx, D, rng, toks, pending, ks, leaves=None, all_signs=False):
     cnt = 0
     for leaf in (leaves if leaves is not None else [rng.choice(leaf_indices(toks))]):
@@ -1275,12 +1412,15 @@ def run(ctx):
               (tokens_from([[], []], [None, None, None]), "none"), (tokens_from([[[], []], []], [F(1), F(0), F(0), F(0), F(0)]), "zero")]
     for toks, kind in corner:
         tree_battery(ctx, D, rng, toks, kind, pending)
+    # time scale x precision: heights 2^-20 .. 2^30, precisions 2^-50 .. 2^10 / default / 0 / disabled, one edge off by f x precision
+    scale_sweep(ctx, D, rng, pending, ctx.pick(60, 1500))
     for it in range(ntrees):
         if ctx.out_of_time() or (ctx.tier == "thorough" and ctx.time_left() < 0.45 * ctx.budget_s):
             ctx.note("random phase stopped after %d trees (the rest of the budget belongs to the exhaustive phases)" % it)
             break
         toks, kind = gen_tree(rng, max_leaves)
         tree_battery(ctx, D, rng, toks, kind, pending)
+        scale_sweep_tree(ctx, D, rng, pending)
         if kind == "ultra":
             # one tip just below / just above / exactly at every precision
             ks = [None] + rng.sample(range(1, 21), ctx.pick(2, 4))
@@ -1337,6 +1477,8 @@ def search(ctx, broken):
     D = __import__("dendropy")
     rng = ctx.rng
     pending = []
+    scale_sweep(ctx, D, rng, pending, 4000, seconds=40)
+    flush(ctx, pending)
     for n in range(1, 6):
         for shape in tu.all_shapes(n):
             if ctx.failures or ctx.out_of_time():
